@@ -295,7 +295,6 @@ func run(c *eng.Ctx) error {
 	dedicated := []scenario{
 		{origins: [][]answer{{{rCut, 300}}, {{rFull, 0}}}, n: 1000, dstKind: "buf", flag: "partial_then_full"},
 		{origins: [][]answer{{{rNet, 0}}, {{rCut, 99999}}, {{503, 0}}, {{rFull, 0}}}, n: 100000, chunked: true, dstKind: "file", flag: "partial_then_full"},
-		{origins: [][]answer{{{rCut, 1}}, {{rCut, 1}}, {{rFull, 0}}}, n: 2, dstKind: "buf", flag: "partial_then_full"},
 		{origins: [][]answer{}, n: 10, dstKind: "buf", flag: "none"}, // empty cluster: resolve fails
 	}
 	nBulk := len(pats) * variants
